@@ -68,6 +68,19 @@ _c13("K13-phrase-sa", "c13_phrase_scorer_seek_adv", ["PhraseScorer::<ArrPostings
      title="PhraseScorer: advance / seek observe the sorted sequence of documents where b follows a", unwindset=GO_FIRST + [("binary_search", 10)])
 _c13("K13-phrase-sd", "c13_phrase_scorer_seek_danger", ["PhraseScorer::{new,seek_danger,phrase_match}"], "as above, one seek_danger(t) call", tiers="t", timeout=2400, mem=30,
      title="PhraseScorer: seek_danger(t) = Found iff t is a phrase match, lower bound otherwise", unwindset=GO_FIRST + [("binary_search", 10)])
+BU_US = [(r"fill_bufferBa_\.0$", 66), (r"fill_bufferBa_\.1$", 6), ("advance_buffered", 66), ("state_after_seek", 130), ("tinyset_of", 66)]
+_c13("K13-bunion-fills-link", "c13_buffered_union_two_fills_link_ids", ["BufferedUnionScorer::<ConstScorer<Arr>, DoNothingCombiner>::{fill_buffer,refill,advance_buffered}", "buffered_union::refill", "unordered_drain_filter", "TinySet::{pop_lowest,insert_mut}"],
+     "fixed reachable pre-state (A = {0} ∪ [3968,4096) after build + seek(3968): doc 3968, bucket 62), B = {5000, b1}, b1 symbolic in (5000, 12000); two fill_buffer calls crossing the window refill",
+     tiers="qt", timeout=900, mem=14, title="BufferedUnionScorer: two fill_buffer calls hand out 3968..4095 in order, cross the refill onto b0, and leave exactly b1 pending (bits, bucket, window start, remaining scorers = pre-state of K13-bunion-adv-*)",
+     unwindset=BU_US)
+_c13("K13-bunion-adv-near", "c13_buffered_union_advance_from_s1_near_one_call", ["BufferedUnionScorer::{advance,advance_buffered,refill}"], "pre-state S1(b1) written down directly (guaranteed by K13-bunion-fills-link), b1 buffered in the window of b0; one advance",
+     tiers="t", timeout=1800, mem=20, title="BufferedUnionScorer: from the refilled window, advance lands on b1 (buffered)", unwindset=BU_US)
+_c13("K13-bunion-adv-far", "c13_buffered_union_advance_from_s1_far_one_call", ["BufferedUnionScorer::{advance,advance_buffered,refill}"], "pre-state S1(b1), b1 beyond the window of b0 (one more refill); one advance",
+     tiers="t", timeout=1800, mem=20, title="BufferedUnionScorer: from the refilled window, advance refills again and lands on b1", unwindset=BU_US)
+_c13("K13-bunion-adv2-near", "c13_buffered_union_advance_from_s1_near", ["BufferedUnionScorer::{advance,advance_buffered,refill}"], "as K13-bunion-adv-near, then a second advance reports the end",
+     tiers="t", timeout=2400, mem=40, title="BufferedUnionScorer: b1 then the end (buffered case)", unwindset=BU_US)
+_c13("K13-bunion-adv2-far", "c13_buffered_union_advance_from_s1_far", ["BufferedUnionScorer::{advance,advance_buffered,refill}"], "as K13-bunion-adv-far, then a second advance reports the end",
+     tiers="t", timeout=2400, mem=40, title="BufferedUnionScorer: b1 then the end (refill case)", unwindset=BU_US)
 _c13("K13-disj-p2", "c13_disjunction_msm2_prog2", ["Disjunction::<ConstScorer<Arr>,SumCombiner>::{new,advance,doc,score}", "BinaryHeap<ScorerWrapper<_>>", "DocSet::seek (default)"],
      "3 leaves x <=2 docs, minimum_matches_required = 2, programs of 2 calls; unwind 5 + swap loops 20",
      title="Disjunction(min-should-match 2) = docs in >=2 leaves; score = sum of matching", tiers="t", unwindset=[("swap_nonoverlapping", 20)], timeout=900)
@@ -156,6 +169,16 @@ K("C07", "K07-fieldnorm-floor", "c07_fieldnorm_floor", timeout=120, title="field
   functions=["fieldnorm::code::fieldnorm_to_id", "id_to_fieldnorm"], bounds="all u32; unwind 12")
 K("C07", "K07-fieldnorm-table", "c07_fieldnorm_table_strictly_increasing", timeout=60, title="the 256-entry field-norm table is strictly increasing and self-inverse",
   functions=["FIELD_NORMS_TABLE", "fieldnorm_to_id"], bounds="all 256 ids")
+K("C07", "K07-fastcmp-short", "c07_fastcmp_len_0_16", crate="tantivy-stacker", timeout=600, checks="memory",
+  title="term-key equality of the indexing hash map is byte-string equality (lengths 0..16), no out-of-bounds read",
+  functions=["stacker::fastcmp::{fast_short_slice_compare,double_check_trick,short_compare}"], bounds="two keys of independent symbolic lengths 0..16 and symbolic bytes; unwind 42; with bounds / pointer checks (unsafe get_unchecked)")
+K("C07", "K07-fastcmp-long", "c07_fastcmp_len_17_40", crate="tantivy-stacker", timeout=600, checks="memory",
+  title="term-key equality of the indexing hash map is byte-string equality (lengths 17..40)",
+  functions=["stacker::fastcmp::{fast_short_slice_compare,fast_nbyte_slice_compare}"], bounds="two keys of symbolic lengths 17..40; longer keys run the same 16-byte loop more often: outside the claim")
+K("C07", "K07-fastcpy-short", "c07_fastcpy_len_0_32", crate="tantivy-stacker", timeout=600, checks="memory", tiers="t",
+  title="arena copy: destination equals source, nothing else written (lengths 0..32)", functions=["stacker::fastcpy::{fast_short_slice_copy,short_copy,double_copy_trick}"], bounds="symbolic length 0..32 in a 70-byte buffer")
+K("C07", "K07-fastcpy-long", "c07_fastcpy_len_33_70", crate="tantivy-stacker", timeout=600, checks="memory", tiers="t",
+  title="arena copy (lengths 33..70; the avx branch is compiled out under Kani's target features)", functions=["stacker::fastcpy::fast_short_slice_copy"], bounds="symbolic length 33..70")
 K("C07", "K07-vint-u32", "c07_vint_u32_roundtrip", crate="tantivy-common", timeout=120, title="common VInt u32: minimal length, reader stops exactly after the integer",
   functions=["common::vint::serialize_vint_u32", "read_u32_vint"], bounds="all u32, arbitrary trailing bytes; unwind 10")
 K("C07", "K07-vint-u64", "c07_vint_u64_roundtrip", crate="tantivy-common", timeout=120, title="common VInt u64 round trip",
@@ -182,6 +205,15 @@ for _g in (1, 2, 3, 10, 1000):
     K("C08", "K08-range-gcd%d" % _g, "c08_range_transform_gcd%d" % _g, crate="tantivy-columnar", timeout=120, group="c08-range-gcd",
       title="range push-down through min/gcd transformation, gcd %d" % _g, functions=["bitpacked::transform_range_before_linear_transformation"],
       bounds="gcd = %d; packed <= 2^40; all u64 bounds" % _g, assumes=["min_value + gcd*packed does not overflow"])
+K("C08", "K08-stacked-rows-v1", "c08_stacked_rows_with_values_multivalued_v1", crate="tantivy-columnar", timeout=600,
+  title="stack merge: rows with values of a legacy (v1) multivalued input are its non-empty rows shifted by the table offset, in order",
+  functions=["column_index::merge::stacked::get_doc_ids_with_values", "MultiValueIndexV1::{range,num_docs}"], bounds="3 rows, symbolic start offsets (array-backed ColumnValues trait object), table offset < 100000")
+K("C08", "K08-stacked-rows-full", "c08_stacked_rows_with_values_full_and_empty", crate="tantivy-columnar", timeout=300,
+  title="stack merge: a full input contributes its whole row range at its offset, an empty input nothing",
+  functions=["column_index::merge::stacked::get_doc_ids_with_values"], bounds="<= 3 rows")
+K("C08", "K08-stacked-counts-full", "c08_stacked_num_values_per_row_full", crate="tantivy-columnar", timeout=300,
+  title="stack merge: a full input contributes one value per row to the merged start offsets",
+  functions=["column_index::merge::stacked::get_num_values_iterator"], bounds="<= 3 rows")
 K("C08", "K08-num-bits", "c08_num_bits_sufficient", crate="tantivy-columnar", timeout=60, title="compute_num_bits is the minimal sufficient width and one BitUnpacker accepts",
   functions=["tantivy_bitpacker::compute_num_bits"], bounds="all u64", checks="full")
 K("C08", "K08-line", "c08_line_residuals_nonnegative_small", crate="tantivy-columnar", timeout=600,
